@@ -99,7 +99,9 @@ type State struct {
 	Ents   []EntRec         `json:"ents"`
 	Locked bool             `json:"locked"`
 	Used   int              `json:"used"`
-	Res    map[string]int64 `json:"res"` // resources present: type -> value
+	Res    map[string]int64 `json:"res"`    // resources present: type -> value
+	RelC   []string         `json:"relc"`   // the model components the registry reports as relation components
+	NTypes int              `json:"ntypes"` // number of registered component types
 }
 
 type BVal struct {
@@ -478,6 +480,7 @@ type Config struct {
 	MaxEnt    int      `json:"maxent"`    // driver: soft bound on the number of alive entities
 	Observers int      `json:"observers"` // driver: max simultaneously registered observers (0 = none)
 	ResetP    int      `json:"resetp"`    // driver: per-mille probability of World.Reset / DumpLoad per step
+	RegLocked bool     `json:"reglocked"` // driver: attempts to register a new component type while the world is locked
 	ResP      int      `json:"resp"`      // driver: per-mille probability of a resource operation per step
 	TypedObs  bool     `json:"typedobs"`  // register observers through Observer1..4 where the observed set allows
 	Arity     bool     `json:"arity"`     // driver: draw component sets from the instantiated tuples of all arities
@@ -542,6 +545,8 @@ type Exec struct {
 	oldFilters map[int]*regFilter
 	custom     map[string]ecs.EventType
 	res        map[string]resHandle
+	regCount   int
+	baseTypes  int // component types registered when the world was set up
 	seq        int
 	Events     int
 	Panics     int
@@ -633,6 +638,8 @@ func (x *Exec) newWorld() {
 	reg := ecs.EventRegistry{}
 	x.custom = map[string]ecs.EventType{"Custom0": reg.NewEventType(), "Custom1": reg.NewEventType()}
 	x.initResources()
+	x.regCount = 0
+	x.baseTypes = len(ecs.ComponentIDs(x.w))
 }
 
 var builtinEvents = map[string]ecs.EventType{
@@ -1111,7 +1118,7 @@ func (x *Exec) entRec(e ecs.Entity) EntRec {
 }
 
 func (x *Exec) project() (st State) {
-	st = State{Alive: []ecs.Entity{}, Dead: []ecs.Entity{}, Ents: []EntRec{}, Res: map[string]int64{}}
+	st = State{Alive: []ecs.Entity{}, Dead: []ecs.Entity{}, Ents: []EntRec{}, Res: map[string]int64{}, RelC: []string{}}
 	defer func() {
 		if r := recover(); r != nil {
 			// a projection that panics is reported as an impossible state
@@ -1129,6 +1136,12 @@ func (x *Exec) project() (st State) {
 	st.Locked = x.w.IsLocked()
 	st.Used = x.w.Stats().Entities.Used
 	st.Res = x.resState()
+	for _, c := range x.Cfg.Comps {
+		if info, ok := ecs.ComponentInfo(x.w, x.ids[c]); ok && info.IsRelation {
+			st.RelC = append(st.RelC, c)
+		}
+	}
+	st.NTypes = len(ecs.ComponentIDs(x.w)) - x.baseTypes
 	return st
 }
 
@@ -1775,6 +1788,10 @@ func (x *Exec) dispatch(op GenOp, e ecs.Entity, tg map[string]ecs.Entity, lo *Lo
 		w.Reset()
 	case "ResAdd", "ResRemove", "ResSet":
 		x.resOp(op)
+	case "RegType":
+		// a component type the world has never seen is registered: rejected on a locked world (nothing changes)
+		ecs.TypeID(w, reflect.ArrayOf(1000+x.regCount, reflect.TypeFor[uint8]()))
+		x.regCount++
 	case "Load":
 		// the world continues as the one its own entity dump is loaded into (through JSON): a fresh world with the
 		// same registrations (mode fresh), or this world after Reset (mode reset)
@@ -1802,6 +1819,7 @@ func (x *Exec) dispatch(op GenOp, e ecs.Entity, tg map[string]ecs.Entity, lo *Lo
 			}
 		}
 		w2.Unsafe().LoadEntities(&d)
+		x.baseTypes = len(ecs.ComponentIDs(w2)) - (len(ecs.ComponentIDs(w)) - x.baseTypes)
 		x.w = w2
 		for _, n := range resNames {
 			x.res[n].rebind(w2)
